@@ -802,7 +802,7 @@ def _gcd(a, b):
 def thorough_batch(pool, seed, args, batch):
     from . import gen
 
-    budget = args.budget if args.budget is not None else float(os.environ.get("VERIF_BUDGET_S", "2700"))
+    budget = args.budget if args.budget is not None else float(os.environ.get("VERIF_BUDGET_S", "1800"))
     t0 = time.time()
     tasks = list(chunks("template", seed, range(gen.N_TEMPLATES), want_fp=True))
     keep = applicable_inject_templates(pool)
